@@ -378,6 +378,12 @@ func (fx *FnCtx) contractCallWithNames(st *State, pc *Term, fc *FuncContract, na
 	} else {
 		post.result = []Value{res}
 	}
+	// slices among the results are well-formed Go values (0 <= len <= cap, bounded sizes)
+	for _, rv := range post.result {
+		if rv.T != nil && rv.P == nil {
+			fx.sliceShape(rv, rv.T, 0, pc)
+		}
+	}
 	if sig != nil {
 		post.resNames = map[string]int{}
 		rs := sig.Results()
